@@ -13,6 +13,8 @@ import LWV.Spec.Frames
 import LWV.Model.Misc
 import LWV.Model.Classify
 import LWV.Spec.Classify
+import LWV.Model.Mgmt
+import LWV.Spec.Mgmt
 /-
 Line-protocol driver: runs the executable Model (and Spec) on the same operation lines the C
 harness runs.  Compiled as `lwdriver` (nothing below imports Mathlib).
@@ -323,6 +325,101 @@ def specCls (rt : Bool) (bs : Bytes) : String :=
       let data := if ty == 2 then s!"data={toHex ((s.header.drop 4).take 6)}/{toHex ((s.header.drop 10).take 6)}/{toHex s.body}" else "data=err"
       s!"ok flags={flags} len={s.len} hl={s.headerLen} fc={toHex s.fc} hdr={toHex s.header} body={toHex s.body} rt={rts} {data}"
 
+/-! management parsers -/
+
+def showSuite (oui : Bytes) (ty : Nat) : String := s!"{toHex (pad oui 3)}:{ty}"
+
+def showSuites6 (l : List (Bytes × Nat)) : String :=
+  ",".intercalate ((l ++ List.replicate (6 - l.length) ([0, 0, 0], 0)).map fun (o, t) => showSuite o t)
+
+def showRsn (version : Nat) (g : Bytes × Nat) (pw ak : List (Bytes × Nat)) (caps : Nat) : String :=
+  s!"{version}/{showSuite g.1 g.2}/{pw.length}[{showSuites6 pw}]/{ak.length}[{showSuites6 ak}]/{caps}"
+
+def showWpa (version : Nat) (g : Bytes × Nat) (uc ak : List (Bytes × Nat)) : String :=
+  s!"{version}/{showSuite g.1 g.2}/{uc.length}[{showSuites6 uc}]/{ak.length}[{showSuites6 ak}]"
+
+def hexNat (n : Nat) : String := String.ofList (Nat.toDigits 16 n)
+
+def showBssWith (rx tx bssid ssid : Bytes) (hidden ch wps enc : Nat) (rsn wpa : String) (tags : Bytes) : String :=
+  s!"bss rx={toHex rx} tx={toHex tx} bssid={toHex bssid} ssid={toHex ssid} hidden={hidden} ch={ch} wps={wps} enc={hexNat enc} sig=0 rsn={rsn} wpa={wpa} tags={toHex tags}"
+
+def mSuite (s : Model.Suite) : Bytes × Nat := (s.oui, s.ty)
+def sSuite (s : Spec.SuiteSel) : Bytes × Nat := (s.oui, s.ty)
+
+def showParsed : Model.Parsed → String
+  | .bss b => showBssWith b.receiver b.transmitter b.bssid b.ssid b.hidden b.channel b.wps b.enc
+      (showRsn b.rsn.version (mSuite b.rsn.group) (b.rsn.pairwise.map mSuite) (b.rsn.akms.map mSuite) b.rsn.caps)
+      (showWpa b.wpa.version (mSuite b.wpa.multicast) (b.wpa.unicast.map mSuite) (b.wpa.akms.map mSuite)) b.tags
+  | .sta s => s!"sta ch={s.channel} rand={s.randomized} tx={toHex s.transmitter} rx=000000000000 bssid={toHex s.bssid} ssid={toHex s.ssid} bcast=0 tags={toHex s.tags}"
+  | .reason r => s!"reason ord={if r.ordered then 1 else 0} hdr={toHex r.header} code={r.reason} tags={toHex r.tags}"
+
+def mkinds : List (String × Model.MKind) :=
+  [("beacon", .beacon), ("probe_resp", .probeResp), ("assoc_resp", .assocResp), ("reassoc_resp", .reassocResp),
+   ("probe_req", .probeReq), ("assoc_req", .assocReq), ("reassoc_req", .reassocReq), ("deauth", .deauth), ("disassoc", .disassoc)]
+
+/-- the property's expectation for parser `k` on an accepted frame given as Spec slices -/
+def specParse (k : Model.MKind) (s : Spec.Slices) : String :=
+  let b0 := (s.fc.getD 0 0).toNat
+  let ty := (b0 / 4) % 4
+  let st := b0 / 16
+  if ty != 0 || st != k.subtype then "err*"
+  else
+    let a1 := (s.header.drop 4).take 6
+    let a2 := (s.header.drop 10).take 6
+    let a3 := (s.header.drop 16).take 6
+    let fixedLen := match k with
+      | .beacon | .probeResp => 12 | .assocResp | .reassocResp => 6 | .probeReq => 0 | .assocReq => 4 | .reassocReq => 10
+      | .deauth | .disassoc => 2
+    if s.body.length < fixedLen then "err*"
+    else
+      let tags := s.body.drop fixedLen
+      match k with
+      | .deauth | .disassoc =>
+        s!"reason ord={if s.ordered then 1 else 0} hdr={toHex s.header} code={Spec.u16le s.body 0} tags={toHex tags}"
+      | .beacon | .probeResp | .assocResp | .reassocResp =>
+        if !Spec.wellFormedTags tags then "?"
+        else
+          let capOff := match k with | .beacon | .probeResp => 10 | _ => 0
+          let privacy := ((s.body.getD capOff 0).toNat / 16) % 2 == 1
+          match Spec.bssReport privacy (Spec.parse tags) with
+          | none => "err*"
+          | some r =>
+            let rsn := match r.rsn with
+              | some d => showRsn d.version (sSuite d.group) (d.pairwise.map sSuite) (d.akms.map sSuite) d.caps
+              | none => showRsn 0 ([0, 0, 0], 0) [] [] 0
+            let wpa := match r.wpa with
+              | some d => showWpa d.version (sSuite d.multicast) (d.unicast.map sSuite) (d.akms.map sSuite)
+              | none => showWpa 0 ([0, 0, 0], 0) [] []
+            showBssWith a1 a2 a3 r.ssid r.hidden r.channel r.wps r.enc rsn wpa tags
+      | .probeReq | .assocReq | .reassocReq =>
+        if !Spec.wellFormedTags tags then "?"
+        else
+          let r := Spec.staReport (Spec.parse tags)
+          let rand := if ((a2.getD 0 0).toNat / 2) % 2 == 1 then 1 else 0
+          s!"sta ch={r.channel} rand={rand} tx={toHex a2} rx=000000000000 bssid={toHex a3} ssid={toHex r.ssid} bcast=0 tags={toHex tags}"
+
+def slicesOfCls (rt : Bool) (bs : Bytes) : Option Spec.Slices :=
+  if rt then
+    match Spec.rtFields bs with
+    | none => none
+    | some (itLen, fields) =>
+      let v := Spec.rtValues bs itLen fields 16
+      Spec.classifyCore bs itLen ((v.flags / 16) % 2 == 1)
+  else Spec.classifyCore bs 0 false
+
+def stepMp (rt : Bool) (bs : Bytes) : String :=
+  let m := match Model.classify rt bs with
+    | .ok f => "cls=ok" ++ String.join (mkinds.map fun (n, k) => s!" # {n}=" ++ (match Model.parseMgmt k f with
+        | .ok p => showParsed p
+        | .err c => s!"err{c}"
+        | .fault x => s!"FAULT {repr x}"))
+    | .err _ => "cls=err"
+    | .fault x => s!"FAULT {repr x}"
+  let sp := match slicesOfCls rt bs with
+    | none => "cls=err"
+    | some s => "cls=ok" ++ String.join (mkinds.map fun (n, k) => s!" # {n}=" ++ specParse k s)
+  m ++ " ;; spec=" ++ sp
+
 def step (line : String) : String :=
   match line.trimAscii.toString.splitOn " " with
   | ["tagname", v] =>
@@ -439,6 +536,10 @@ def step (line : String) : String :=
   | ["cls", rt, h] =>
     match ofHex h with
     | some bs => showOutcome showFrame (Model.classify (rt == "1") bs) ++ " ;; spec=" ++ specCls (rt == "1") bs
+    | none => "bad-op"
+  | ["mp", rt, h] =>
+    match ofHex h with
+    | some bs => stepMp (rt == "1") bs
     | none => "bad-op"
   | ["spec-ieee", kind] =>
     match specKinds.lookup kind with
